@@ -108,16 +108,19 @@ pub fn cur_index(p: &ParserBase<SymStream>) -> usize {
 
 pub fn publish(s: &SymStream) {
     unsafe {
-        let mut i = 0;
         let mut o = 0usize;
-        while i < CAP + 1 {
-            G_KINDS[i] = if i < s.n { s.kinds[i] } else { K::Eof };
-            G_OFFS[i] = o;
-            if i < s.n {
-                o += s.widths[i] as usize;
-            }
-            i += 1;
+        macro_rules! slot {
+            ($i:expr) => {
+                G_KINDS[$i] = if $i < s.n { s.kinds[$i] } else { K::Eof };
+                G_OFFS[$i] = o;
+                if $i < s.n {
+                    o += s.widths[$i] as usize;
+                }
+            };
         }
+        slot!(0); slot!(1); slot!(2); slot!(3); slot!(4); slot!(5); slot!(6); slot!(7);
+        G_KINDS[CAP] = K::Eof;
+        G_OFFS[CAP] = o;
         G_OFFS[CAP + 1] = o;
         G_NTOK = s.n;
         G_LOGGED = 0;
@@ -399,3 +402,120 @@ pub fn is_recover(k: K) -> bool {
 
 
 
+
+// ---------------------------------------------------------------------------
+// L2 support: event log, state accessors, stubs for expect/at_set
+
+/// event kinds of the L2 log: a consumed token, or a callee rule that reported ok / failed
+pub const EV_TOK: u8 = 0;
+pub const EV_OK: u8 = 1;
+pub const EV_FAIL: u8 = 2;
+pub const EVCAP: usize = 16;
+pub static mut G_L2: bool = false;
+pub static mut G_IN_CONTRACT: bool = false;
+pub static mut G_EV_TAG: [u8; EVCAP] = [0; EVCAP];
+pub static mut G_EV_ID: [u8; EVCAP] = [0; EVCAP];
+/// first token kind of a callee placeholder (for ordered-choice guards)
+pub static mut G_EV_FK: [u8; EVCAP] = [0; EVCAP];
+pub static mut G_NEV: usize = 0;
+
+pub fn log_event(tag: u8, id: u8, fk: u8) {
+    unsafe {
+        if G_NEV < EVCAP {
+            G_EV_TAG[G_NEV] = tag;
+            G_EV_ID[G_NEV] = id;
+            G_EV_FK[G_NEV] = fk;
+        }
+        G_NEV += 1;
+    }
+}
+
+/// the builder stub used by L2 units: the L1 check plus the event log
+pub fn g_token_l2<'c>(b: &mut rowan::GreenNodeBuilder<'c>, kind: rowan::SyntaxKind, text: &str)
+where
+    'c: 'c,
+{
+    unsafe {
+        let i = G_LOGGED;
+        let is_real = i < G_NTOK;
+        g_token(b, kind, text);
+        if !G_IN_CONTRACT && is_real {
+            log_event(EV_TOK, G_KINDS[i] as u8, G_KINDS[i] as u8);
+        }
+    }
+}
+
+impl<T: TokenStream> ParserBase<T> {
+    /// replaces ParserBase::skip in L2 units: their streams contain no trivia, so skip() is the
+    /// identity (its general behaviour is the L1 harness c01c02_l1_skip)
+    pub fn verif_skip_stub(&mut self) {
+        assert!(!self.current.is_trivia(), "L2 streams contain no trivia");
+    }
+    /// replaces ParserBase::expect: the eager `eco_format!("expected {kind:?}")` is cut
+    pub fn verif_expect_stub(&mut self, kind: TokenKind) {
+        self.expect_with_msg(kind, "");
+    }
+    /// replaces ParserBase::at_set: the scans of the three constant tables (VALUE_START 64,
+    /// TYPE_FIRST_TOKENS 8, RECOVER_TOKENS 5 entries, told apart by length) are replaced by their
+    /// summaries (proved equal by c02c04_l1_at_set_tables); the small inline sets are scanned
+    pub fn verif_at_set_stub(&self, set: &[TokenKind]) -> bool {
+        if set.len() == 64 {
+            return is_value_start(self.current);
+        }
+        if set.len() == 8 {
+            return is_type_first(self.current);
+        }
+        if set.len() == 5 {
+            return is_recover(self.current);
+        }
+        let mut i = 0;
+        let mut found = false;
+        while i < set.len() {
+            if set[i] == self.current {
+                found = true;
+            }
+            i += 1;
+        }
+        found
+    }
+}
+
+pub fn l2_after_error(p: &ParserBase<SymStream>) -> bool {
+    p.is_after_error
+}
+pub fn l2_set_after_error(p: &mut ParserBase<SymStream>, v: bool) {
+    p.is_after_error = v;
+}
+pub fn l2_consumed(p: &ParserBase<SymStream>) -> usize {
+    cur_index(p)
+}
+pub fn l2_ntok(p: &ParserBase<SymStream>) -> usize {
+    p.token_stream.n
+}
+pub fn l2_kind_at(p: &ParserBase<SymStream>, i: usize) -> K {
+    if i < p.token_stream.n { p.token_stream.kinds[i] } else { K::Eof }
+}
+
+/// fresh parser over n symbolic non-trivia tokens (then Eof); `first` fixes the first kind
+pub fn l2_parser<'a>(n: usize, first: Option<K>) -> ParserBase<SymStream<'a>> {
+    let mut s = SymStream::any(n);
+    macro_rules! slot {
+        ($i:expr) => {
+            if $i < n {
+                kani::assume(!s.kinds[$i].is_trivia());
+            }
+        };
+    }
+    slot!(0); slot!(1); slot!(2); slot!(3); slot!(4); slot!(5); slot!(6); slot!(7);
+    if let Some(k) = first {
+        // unconditional (constant) store so that the dispatch on the first token folds
+        s.kinds[0] = k;
+    }
+    publish(&s);
+    unsafe {
+        G_L2 = true;
+        G_IN_CONTRACT = false;
+        G_NEV = 0;
+    }
+    ParserBase::new(s)
+}
